@@ -269,6 +269,8 @@ func exec(t *thread, c cmd) kjob.Event {
 	case "outer-enosys-thread":
 		// the ENOSYS fault for the calling thread only (works whatever filters other threads carry)
 		return kjob.Event{Step: c.index, Ev: "outer-enosys", Tid: gettid(), Err: installEnosysHere(0)}
+	case "outer-deny-nnp-thread":
+		return kjob.Event{Step: c.index, Ev: "outer-deny-nnp", Tid: gettid(), Err: installDenyNNPHere()}
 	case "status":
 		return kjob.Event{Step: c.index, Ev: "thread-status", Tid: gettid(), Status: []kjob.ThreadStatus{statusOf(gettid())}}
 	}
@@ -446,6 +448,30 @@ func installEnosysHere(flags uintptr) string {
 	return ""
 }
 
+// installDenyNNPHere installs, on the calling thread and without setting no_new_privs (needs CAP_SYS_ADMIN), a filter
+// that answers EPERM to prctl(PR_SET_NO_NEW_PRIVS, ...) and allows everything else: an enclosing sandbox that forbids
+// the call.
+func installDenyNNPHere() string {
+	nr, prctlNr := uint32(317), uint32(157)
+	if runtime.GOARCH == "386" {
+		nr, prctlNr = 354, 172
+	}
+	prog := []syscall.SockFilter{
+		{Code: 0x20, K: 0},                     // ld [0]  (syscall number)
+		{Code: 0x15, Jt: 0, Jf: 3, K: prctlNr}, // jeq #prctl
+		{Code: 0x20, K: 16},                    // ld [16] (low word of argument 0; little-endian hosts)
+		{Code: 0x15, Jt: 0, Jf: 1, K: 38},      // jeq #PR_SET_NO_NEW_PRIVS
+		{Code: 0x06, K: 0x00050000 | 1},        // ret ERRNO|EPERM
+		{Code: 0x06, K: 0x7fff0000},            // ret ALLOW
+	}
+	fp := syscall.SockFprog{Len: uint16(len(prog)), Filter: &prog[0]}
+	r, _, e := syscall.RawSyscall(uintptr(nr), 1, 0, uintptr(unsafe.Pointer(&fp)))
+	if e != 0 || r != 0 {
+		return fmt.Sprintf("seccomp: ret %d errno %v", r, e)
+	}
+	return ""
+}
+
 func run(job *kjob.Job) {
 	var releaseProbes []kjob.Probe
 	for i, st := range job.Steps {
@@ -497,7 +523,7 @@ func run(job *kjob.Job) {
 				done <- kjob.Event{Step: i, Ev: "control", Tid: before, TidAfter: after, Migrated: before != after}
 			}()
 			emit(<-done)
-		case "load", "nested-load", "supported", "nnp", "probe", "status", "outer-enosys-thread":
+		case "load", "nested-load", "supported", "nnp", "probe", "status", "outer-enosys-thread", "outer-deny-nnp-thread":
 			emit(kjob.Event{Step: i, Ev: "begin:" + st.Op, Idx: st.Thread})
 			if st.Thread < 0 {
 				done := make(chan kjob.Event, 1)
